@@ -171,7 +171,7 @@ def main():
         ],
         'checks': checks,
         'not_applicable': na,
-        'notes': 'Static analysis only: no check executes dasp code. See DESIGN.md.',
+        'notes': 'Static analysis only: no check executes dasp code. After the rules of a property, the obligations of the properties it depends on are imported for the functions it reaches (analysis/deps.py), and a failing body-determined rule instance is withdrawn only if the function is provably equivalent, path by path, to the reference implementation on which the rule was established (analysis/equiv.py, reference/). See DESIGN.md sections 11-12.',
     }
     with open(os.path.join(VERIF, 'MANIFEST.json'), 'w') as fh:
         json.dump(m, fh, indent=1)
